@@ -149,7 +149,7 @@ func shiftingSites(fn *ssa.Function) []token.Pos {
 func c02Retry(e *Env) {
 	const rule = "C02.retry"
 	w, r := e.W, e.R
-	r.Explainf("C02.retry: (1) effect summary over go/ssa: a function shifts bytes in a buffer when it stores to b[i] a value fed by b[j] with j ≠ i, or copies within one buffer (pointwise table maps b[i]=T[b[i]] are position-stable and allowed); closed over static callees. (2) every function that obtains the buffered bytes with ext.MustPeekBuffered and hands them to a parser is a retry entry (its caller loops on ErrNeedMore and re-parses the same bytes). (3) on every call path from that parser to a shifting function, some call on the path is dominated by a checked completeness guard — a function on the same buffer that can return the need-more error, never shifts and never stores into the buffer, with the err == nil edge of its test dominating the call. Sibling cross-check: all retry entries must satisfy the same rule.")
+	r.Explainf("C02.retry: (1) effect summary over go/ssa: a function shifts bytes in a buffer when it stores to b[i] a value fed by b[j] with j ≠ i, or copies within one buffer (pointwise table maps b[i]=T[b[i]] are position-stable and allowed); closed over static callees. (2) every function that obtains the buffered bytes with ext.MustPeekBuffered and hands them to a parser is a retry entry (its caller loops on ErrNeedMore and re-parses the same bytes). (3) on every call path from that parser to a shifting function, some call on the path is dominated by a checked completeness guard — a function on the same buffer that can return the need-more error, never shifts and never stores into the buffer, with the err == nil edge of its test dominating the call, applied to the same buffer value (same slice bounds) that is then parsed. Sibling cross-check: all retry entries must satisfy the same rule.")
 	z := getZone(w)
 	_ = z
 	fns := allSSAFuncs(w)
@@ -275,12 +275,59 @@ func c02Retry(e *Env) {
 		}
 		return ret
 	}
-	// guardedAt: call c in fn is dominated by the err == nil edge of a checked guard call
+	// the byte buffers a call works on: its []byte arguments, or — for a method on a local
+	// struct (the scanner) — the []byte values stored into that struct's fields
+	buffersOf := func(fn *ssa.Function, c *ssa.Call) []ssa.Value {
+		var out []ssa.Value
+		for _, a := range c.Call.Args {
+			if isByteSliceT(a.Type()) {
+				out = append(out, a)
+			}
+		}
+		if len(out) == 0 && len(c.Call.Args) > 0 {
+			if al, ok := c.Call.Args[0].(*ssa.Alloc); ok {
+				for _, b := range fn.Blocks {
+					for _, ins := range b.Instrs {
+						if st, ok := ins.(*ssa.Store); ok && isByteSliceT(st.Val.Type()) {
+							if fa, ok := st.Addr.(*ssa.FieldAddr); ok && fa.X == ssa.Value(al) {
+								out = append(out, st.Val)
+							}
+						}
+					}
+				}
+			}
+		}
+		return out
+	}
+	sameBuf := func(a, b ssa.Value) bool {
+		if a == b {
+			return true
+		}
+		sa, ok1 := a.(*ssa.Slice)
+		sb, ok2 := b.(*ssa.Slice)
+		return ok1 && ok2 && sa.X == sb.X && sa.Low == sb.Low && sa.High == sb.High && sa.Max == sb.Max
+	}
+	// guardedAt: call c in fn is dominated by the err == nil edge of a checked guard call on the
+	// same buffer value
 	guardedAt := func(fn *ssa.Function, c *ssa.Call) (bool, string) {
+		targets := buffersOf(fn, c)
 		for _, gc := range callees[fn] {
 			g := gc.Call.StaticCallee()
 			if gc == c || !isGuard(g) {
 				continue
+			}
+			if len(targets) > 0 {
+				match := false
+				for _, ga := range gc.Call.Args {
+					for _, t := range targets {
+						if isByteSliceT(ga.Type()) && sameBuf(ga, t) {
+							match = true
+						}
+					}
+				}
+				if !match {
+					continue // the guard looked at a different slice than the one that is parsed
+				}
 			}
 			// error value of the guard call
 			var errVals []ssa.Value
@@ -403,6 +450,67 @@ func c02Retry(e *Env) {
 		}
 	}
 	r.Floor(rule, nEntries, 3, "retry entries (request header, response header, trailer)")
+	// C02.confine: shifting inside the peeked connection buffer must stay inside the bytes being
+	// normalised. A copy within the buffer whose source runs to the end of the buffer moves
+	// everything that is already buffered behind it (body, pipelined messages) and leaves stale
+	// duplicate bytes at the end of the buffered data.
+	const rule2 = "C02.confine"
+	r.Explainf("C02.confine: every byte-shifting function reachable from a retry-entry parser may only move bytes inside the value it normalises: a `copy(b[x:], b[y:])` within one buffer whose source slice has no upper bound shifts the whole tail of the peeked connection buffer — the body and any pipelined message already buffered — and leaves as many stale duplicate bytes at the end of the buffered data as were squeezed out, which are later parsed as the start of the next message.")
+	confined := map[*ssa.Function]bool{}
+	var collect func(f *ssa.Function, seen map[*ssa.Function]bool)
+	collect = func(f *ssa.Function, seen map[*ssa.Function]bool) {
+		if seen[f] {
+			return
+		}
+		seen[f] = true
+		if len(direct[f]) > 0 {
+			confined[f] = true
+		}
+		for _, c := range callees[f] {
+			if g := c.Call.StaticCallee(); reaches(g) {
+				collect(g, seen)
+			}
+		}
+	}
+	for _, f := range fns {
+		for _, c := range callees[f] {
+			if c.Call.StaticCallee() == mpbFn {
+				for _, pc := range callees[f] {
+					if p := pc.Call.StaticCallee(); p != mpbFn && reaches(p) {
+						collect(p, map[*ssa.Function]bool{})
+					}
+				}
+			}
+		}
+	}
+	nSh := 0
+	for f := range confined {
+		nSh++
+		k := 0
+		bad := false
+		for _, b := range f.Blocks {
+			for _, ins := range b.Instrs {
+				call, ok := ins.(*ssa.Call)
+				if !ok {
+					continue
+				}
+				bi, ok := call.Call.Value.(*ssa.Builtin)
+				if !ok || bi.Name() != "copy" || !isByteSliceT(call.Call.Args[0].Type()) || !overlapRoots(rootsOf(call.Call.Args[0]), rootsOf(call.Call.Args[1])) {
+					continue
+				}
+				k++
+				src, isSlice := call.Call.Args[1].(*ssa.Slice)
+				if isSlice && src.High == nil {
+					bad = true
+					r.Fail(rule2, fmt.Sprintf("%s:copy#%d:tail-shift", name[f], k), w.Pos(call.Pos()), "in-place normalisation moves only the bytes of the value being normalised", "the copy's source slice has no upper bound: everything buffered after the folded value (remaining headers, body, pipelined requests) is moved and stale duplicate bytes remain at the end of the buffered data — e.g. a request with an obs-folded header and body \"hello\" makes the next request on the connection start with \"lo\"")
+				}
+			}
+		}
+		if !bad {
+			r.OK(rule2, name[f]+":confined", w.Pos(f.Pos()), "byte shifting in "+name[f]+" has no open-ended tail copy")
+		}
+	}
+	r.Floor(rule2, nSh, 1, "byte-shifting functions reachable from the retry parsers")
 	r.Floor(rule, len(shiftNames), 1, "byte-shifting functions reachable in the protocol stack")
 	_ = core.Mod
 	_ = fmt.Sprint
